@@ -396,6 +396,14 @@ static void bad_poly_cases(uint64_t seed) {
         vf_case("badpoly %016" PRIx64, seed);
         snprintf(what, sizeof what, "legacy fill, %s, res %d", vn, useres);
         fault_case(&c, what);
+    } else if (se) {
+        /* the size function refuses these arguments; the fill runs the same estimate first and must refuse them too, before
+         * it writes anything (one guarded slot) — and must release what it had allocated by then */
+        call_t c = {K_POLY, NULL, 0, 0, 0, &gp, useres, 0, 1};
+        vf_case("badpoly %016" PRIx64, seed);
+        snprintf(what, sizeof what, "legacy fill although maxPolygonToCellsSize refuses (rc=%u), %s, res %d", se, vn, useres);
+        fault_case(&c, what);
+        vf_add("badpoly.fill_after_refused_size", 1);
     }
     for (uint32_t mode = 0; mode < 4; mode++) {
         call_t cm = {K_MAXX, NULL, 0, 0, 0, &gp, useres, mode, 0};
